@@ -16,7 +16,8 @@ def errOfEnd : Reader.End → Option GoErr
 dispatch of `Reader.step`.  `fh` is the header array, `h` the model's parsed header with the same two bytes. -/
 theorem readMessage_header_eq (cfg : Reader.Cfg) (h : Frame.Hdr) (fh : List UInt8) (rc : Option GoErr)
     (h0 : (goIdx fh 0).toNat = h.b0) (h1 : (goIdx fh 1).toNat = h.b1) :
-    Trans.Conn_readMessage_header cfg.readMax fh cfg.pdEnabled cfg.isServer h.len rc =
+    Trans.Conn_readMessage_header (c_config_ReadMaxPayloadSize := cfg.readMax) (c_fh := fh) (c_pd_Enabled := cfg.pdEnabled)
+        (c_isServer := cfg.isServer) (contentLength := h.len) (readControlResult := rc) =
       match Reader.headerCheck cfg h with
       | some e => .error (errOfEnd e)
       | none =>
@@ -55,8 +56,11 @@ theorem readControl_guards_eq (fh : List UInt8) :
 
 /-! ## non-vacuity -/
 
-example : Trans.Conn_readMessage_header 4096 [0x81, 0x85] false true 5 none = .ok (1, true, false) := rfl
-example : Trans.Conn_readMessage_header 4096 [0xC1, 0x85] false true 5 none = .error (some (.status 1002)) := rfl
-example : Trans.Conn_readMessage_header 4 [0x81, 0x85] false true 5 none = .error (some (.status 1009)) := rfl
+example : Trans.Conn_readMessage_header (c_config_ReadMaxPayloadSize := 4096) (c_fh := [0x81, 0x85]) (c_pd_Enabled := false)
+    (c_isServer := true) (contentLength := 5) (readControlResult := none) = .ok (1, true, false) := rfl
+example : Trans.Conn_readMessage_header (c_config_ReadMaxPayloadSize := 4096) (c_fh := [0xC1, 0x85]) (c_pd_Enabled := false)
+    (c_isServer := true) (contentLength := 5) (readControlResult := none) = .error (some (.status 1002)) := rfl
+example : Trans.Conn_readMessage_header (c_config_ReadMaxPayloadSize := 4) (c_fh := [0x81, 0x85]) (c_pd_Enabled := false)
+    (c_isServer := true) (contentLength := 5) (readControlResult := none) = .error (some (.status 1009)) := rfl
 
 end TransEquiv
